@@ -403,15 +403,19 @@ func AfterFunc(d time.Duration, f func()) *time.Timer {
 		node = p.Node
 	}
 	epoch := s.nodeEpoch[node&63].Load()
+	// The task identity is assigned now, by the arming task: timers of several nodes that
+	// fire at the same simulated instant start their goroutines concurrently, and ids taken
+	// at that moment would depend on the real-time race between them.
+	t := s.newTask("afterfunc", node, false)
 	return time.AfterFunc(d, func() {
 		s2 := cur.Load()
 		if s2 != s || s.stopped.Load() {
 			return
 		}
 		if s.nodeEpoch[node&63].Load() != epoch {
+			t.state.Store(stDone)
 			return
 		}
-		t := s.newTask("afterfunc", node, false)
 		s.runTask(t, f)
 	})
 }
